@@ -3,6 +3,7 @@
  */
 
 #include <stdlib.h>
+#include <ctype.h>
 #include <limits.h>
 #include <string.h>
 #include <float.h>
@@ -213,6 +214,13 @@ extern MPT_INTERFACE(metatype) *_mpt_iterator_linear(MPT_STRUCT(value) *val)
 			errno = EINVAL;
 			return 0;
 		}
+		/* nothing but white space behind the description */
+		for (++str; *str; ++str) {
+			if (!isspace(*str)) {
+				errno = EINVAL;
+				return 0;
+			}
+		}
 	}
 	else {
 		errno = EINVAL;
@@ -277,6 +285,13 @@ extern MPT_INTERFACE(metatype) *_mpt_iterator_range(MPT_STRUCT(value) *val)
 			if ((ret = mpt_string_nextvis(&str)) != ')') {
 				errno = EINVAL;
 				return 0;
+			}
+			/* nothing but white space behind the description */
+			for (++str; *str; ++str) {
+				if (!isspace(*str)) {
+					errno = EINVAL;
+					return 0;
+				}
 			}
 		}
 		else {
